@@ -121,14 +121,31 @@ PoolDepth3(u) == Nodes({Ty(k, 0, <<T>>) : k \in {"vec", "flist", "opt", "deq"}, 
                     \cup {Ty("map", 0, <<Arith(4), V>>) : V \in C3}, "red")
 \* up to CacheCap (+1) variable-length C strings in one statement (C11's quantifier; cfg sets MaxArgs)
 PoolCstr(u) == {[ty |-> Leaf("cstr"), val |-> CStr(FALSE, <<1>>)]}
+\* scalar-only statements (no string, container or user type): the sanitiser must still see a non-printable plain char
+PoolScalars(u) == Nodes({Arith(1), Arith(4), Arith(8), Leaf("ptr")}, "full")
+\* index alignment: a COMPOSITE of every kind holding size-cache users, FOLLOWED by another size-cache user
+AlignElems == {Leaf("cstr"), Leaf("direct")}
+AlignA(u) == Nodes({Ty(k, 0, <<T>>) : k \in {"vec", "deq", "list", "flist", "opt"}, T \in AlignElems}
+                   \cup {Ty("arr", n, <<Leaf("cstr")>>) : n \in {1, 2}}
+                   \cup {Ty(k, 0, <<Leaf("cstr")>>) : k \in {"set", "mset"}}
+                   \cup {Ty(k, 0, <<Arith(4), T>>) : k \in MapKinds, T \in AlignElems}
+                   \cup {PairT(Leaf("cstr"), Arith(4)), PairT(Arith(4), Leaf("cstr")), PairT(Leaf("cstr"), Leaf("direct"))}
+                   \cup {Ty("tup", 0, <<Leaf("cstr")>>), Ty("tup", 0, <<Arith(4), Leaf("cstr")>>),
+                         Ty("tup", 0, <<Leaf("cstr"), Leaf("cstr")>>), Ty("tup", 0, <<Leaf("direct"), Arith(1)>>)}, "red")
+AlignB(u) == {[ty |-> Leaf("cstr"), val |-> CStr(FALSE, <<1, 1>>)], [ty |-> Ty("carr", 2, <<>>), val |-> <<1, 1>>],
+              [ty |-> Leaf("direct"), val |-> <<1, 1>>]}
+AlignStmts(u) == {<<a, b>> : a \in AlignA(u), b \in AlignB(u)}
 \* (TLC evaluates zero-argument constant definitions eagerly at start-up: only the selected pool is built)
 Pool == CASE PoolName = "depth2" -> PoolDepth2(0)
           [] PoolName = "pairs" -> PoolPairs(0)
           [] PoolName = "pairsx" -> PoolPairsX(0)
           [] PoolName = "depth3" -> PoolDepth3(0)
           [] PoolName = "cstr" -> PoolCstr(0)
+          [] PoolName = "scalars" -> PoolScalars(0)
+          [] PoolName = "align" -> {}
           [] PoolName = "none" -> {}
 
+TheAlignStmts == IF PoolName = "align" THEN AlignStmts(0) ELSE {}
 (* ------------------------------------------------------------------ random trees (simulation mode) *)
 \* every RandomElement result is bound by a set constructor before it is used, so it is evaluated once
 One(S) == CHOOSE x \in S : TRUE
@@ -350,6 +367,7 @@ SizeStep(t, args, dyn) ==
 ASize(t) ==
   /\ pc[t] = "idle" /\ nst[t] < MaxStmts /\ Len(queue[t]) < MaxPending
   /\ IF Sim THEN \E args \in {RStmt(nst[t])} : \E dyn \in {RandomElement(DynChoices)} : SizeStep(t, args, dyn)
+     ELSE IF PoolName = "align" THEN \E args \in TheAlignStmts : \E dyn \in DynChoices : SizeStep(t, args, dyn)
      ELSE \E n \in 1..(IF nst[t] = 0 THEN MaxArgsFirst ELSE MaxArgs) : \E args \in [1..n -> Pool] : \E dyn \in DynChoices : SizeStep(t, args, dyn)
 
 \* second half: header, encode pass (cache consumed from index 0), dynamic level, commit
